@@ -34,7 +34,7 @@ var nodeIface = reflect.TypeOf((*jet.Node)(nil)).Elem()
 
 // c20collect walks the tree by reflection, independent of utils.Walk, and records every node pointer.
 func c20collect(v reflect.Value, path string, optional bool, out map[uintptr]*c20node, depth int) {
-	if depth > 400 {
+	if depth > 200000 {
 		return
 	}
 	switch v.Kind() {
@@ -104,6 +104,38 @@ var c20directed = []string{
 	`{{ (a + b).C }}{{ a.b.c }}{{ .A.B }}{{ a["x"].y }}`, `{{ f: 1, 2 | g: 3 | .H }}`,
 	`{{ nil }}{{ true }}{{ "s" }}{{ 1.5 }}{{ 'c' }}` + "{{ `r` }}",
 	`{{ x = 1; x }}{{ y := 2; y | f }}`,
+}
+
+// deep trees: a long left-associative chain and deeply nested control structures (every node still exactly once)
+func init() {
+	var sum, nest, close, mixed, mclose strings.Builder
+	for i := 0; i < 400; i++ {
+		if i > 0 {
+			sum.WriteString(" + ")
+		}
+		fmt.Fprintf(&sum, "v%d", i)
+	}
+	for i := 0; i < 150; i++ {
+		fmt.Fprintf(&nest, "{{if c%d}}t%d", i, i)
+		close.WriteString("{{end}}")
+	}
+	for i := 0; i < 90; i++ {
+		switch i % 3 {
+		case 0:
+			fmt.Fprintf(&mixed, "{{range r%d}}", i)
+		case 1:
+			mixed.WriteString("{{try}}")
+		default:
+			fmt.Fprintf(&mixed, "{{block b%d()}}", i)
+		}
+		mclose.WriteString("{{end}}")
+	}
+	c20directed = append(c20directed,
+		"{{ "+sum.String()+" }}",
+		nest.String()+"{{ leaf }}"+close.String(),
+		mixed.String()+"{{ leaf | f(1, _) }}"+mclose.String(),
+		"{{ x"+strings.Repeat(".f", 300)+" }}{{ a"+strings.Repeat("[1]", 250)+" }}{{ "+strings.Repeat("(", 220)+"z"+strings.Repeat(")", 220)+" }}{{ "+strings.Repeat("!", 230)+"b }}",
+	)
 }
 
 func c20run(c *fw.Ctx, idx int) {
@@ -233,7 +265,7 @@ func init() {
 	fw.Register(&fw.Property{
 		ID:        "C20",
 		Technique: "visit-multiset monitor: every node pointer found by an independent reflective traversal of the parsed tree must be handed to the visitor exactly once",
-		Rule: "26 directed templates (include, try/catch, return, '_' slots, slices with omitted bounds, unary forms, yield content with context, all range/if/set forms) and grammar-generated templates using every statement and expression kind (14 delimiter configurations), a quarter of them with one stray control action (catch, else, end, content, try, ...) dropped in at an action boundary - judged like any other template if the parser accepts it; " +
+		Rule: "30 directed templates (4 of them deep: a 400-term sum, 150 nested ifs, 90 nested range/try/block, 220-300-fold chains, indexes, parentheses and negations; include, try/catch, return, '_' slots, slices with omitted bounds, unary forms, yield content with context, all range/if/set forms) and grammar-generated templates using every statement and expression kind (14 delimiter configurations), a quarter of them with one stray control action (catch, else, end, content, try, ...) dropped in at an action boundary - judged like any other template if the parser accepts it; " +
 			"each accepted template is walked with a visitor that always descends via VisitorContext.Visit; oracle: no panic, no nil node, every statement/expression node visited exactly once, structural nodes (List, Pipe, Command, Set, catch, catch variable) at most once, visit count bounded; " +
 			"non-trivial = tree contains at least 5 node kinds; distinct by the set of node kinds present",
 		Assumptions: []string{"the reflective traversal over exported fields reaches every node of the tree"},
